@@ -161,6 +161,7 @@ struct Run {
   std::vector<CookieCtl> cookie_ctl;
   std::vector<ActiveEv> active_hist;
   int settled_outstanding = 0, settled_zero_transitions = 0;   // requests whose accepting call has returned and that have no callback yet; times that count fell to zero
+  std::vector<std::pair<uint32_t, int64_t>> proc_calls;    // (call-log sequence, time) at the start of every ares_process* call (each ends with a timer pass)
   std::map<std::string, std::string> user_set_later;       // settings made through setters after init (key as in the white-box read), e.g. sortlist
   bool user_set_servers = false;                            // the application has set the server list explicitly (init option or setter)
   int files_variant = 0; bool files_changed_since_init = false;   // C16: which rewrite of the system files is on the virtual disk                        // configured server list (indices, configuration order) over time
